@@ -12,7 +12,7 @@ import (
 func init() {
 	register(&propDef{
 		ID:       "C18",
-		Explain:  "Decided (structural necessary conditions): ReconnectClient's closed/cancel/subscribeDone only under its mutex; initDone stores the cancel function and then tests closed in the same critical section, Close tests cancel and then sets closed in one critical section (whichever runs second sees the other's store, so the context is cancelled for every ordering); Subscribe defers the closer of subscribeDone on every exit and Close waits on it only when it exists, after closing the inner client; retry loop: between two inner Subscribe calls exactly one disconnect, an unconditional context check, the backoff sleep and exactly one reset, and the only return inside the loop follows the context check after disconnect; non-stream/poll queries return before initDone; BaseClient.run: EOF/ErrStopReading => nil, other errors => impl.Close then that error, otherwise the close flag is read under the lock immediately after every Recv; BaseClient.Close latches closed under the lock before closing the implementation on every path; Connected precedes every other notification on a fresh stream in the gnmi and fake clients and the flag is only ever set to true; no goroutine or channel between Recv and the handlers; getFirst's error channel has capacity len(types) and a late successful implementation is closed. Also decided: packages client and client/gnmi contain no context.Background()/TODO() and derive every context from the caller's, so cancelling it (what Close does) interrupts dials and RPCs. Round-3 additions: with a live context (never cancelled) the retry loop has no exit; Reconnect sets the backoff's MaxElapsedTime to 0.",
+		Explain:  "Decided (structural necessary conditions): ReconnectClient's closed/cancel/subscribeDone only under its mutex; initDone stores the cancel function and then tests closed in the same critical section, Close tests cancel and then sets closed in one critical section (whichever runs second sees the other's store, so the context is cancelled for every ordering); Subscribe defers the closer of subscribeDone on every exit and Close waits on it only when it exists, after closing the inner client; retry loop: between two inner Subscribe calls exactly one disconnect, an unconditional context check, the backoff sleep and exactly one reset, and the only return inside the loop follows the context check after disconnect; non-stream/poll queries return before initDone; BaseClient.run: EOF/ErrStopReading => nil, other errors => impl.Close then that error, otherwise the close flag is read under the lock immediately after every Recv; BaseClient.Close latches closed under the lock before closing the implementation on every path; Connected precedes every other notification on a fresh stream in the gnmi and fake clients and the flag is only ever set to true; no goroutine or channel between Recv and the handlers; getFirst's error channel has capacity len(types) and a late successful implementation is closed. Also decided: packages client and client/gnmi contain no context.Background()/TODO() and derive every context from the caller's, so cancelling it (what Close does) interrupts dials and RPCs. Round-3 additions: with a live context (never cancelled) the retry loop has no exit; Reconnect sets the backoff's MaxElapsedTime to 0. Round-4 addition: getFirst ends on the member count of the collected error list, so every failed client type sends exactly one plain error (the list flattens nested lists).",
 		NotCover: "the real-time bound ('within the current backoff interval': the backoff wait is time.Sleep, not context-aware, which the property allows); termination of the underlying Impl.Close / grpc; behaviour of the backoff library",
 		Run:      runC18,
 	})
